@@ -227,6 +227,19 @@ def setSerializer(serializer):
     ser = serializer
 
 
+def _urivalues(values):
+    """Generator of all URI values in `values` (e.g. a PropertyValue),
+    including the ones nested in function values like
+    ``image-set(url(a) 1x)``, in document order."""
+    for v in values:
+        if v.type == v.URI:
+            yield v
+        elif v.type == v.FUNCTION:
+            for nested in _urivalues(item.value for item in v.seq
+                                     if isinstance(item.value, css.Value)):
+                yield nested
+
+
 def getUrls(sheet):
     """Retrieve all ``url(urlstring)`` values (in e.g.
     :class:`css_parser.css.CSSImportRule` or :class:`css_parser.css.CSSValue`
@@ -255,9 +268,8 @@ def getUrls(sheet):
 
     for style in styleDeclarations(sheet):
         for p in style.getProperties(all=True):
-            for v in p.propertyValue:
-                if v.type == 'URI':
-                    yield v.uri
+            for v in _urivalues(p.propertyValue):
+                yield v.uri
 
 
 def replaceUrls(sheetOrStyle, replacer, ignoreImportRules=False):
@@ -296,9 +308,8 @@ def replaceUrls(sheetOrStyle, replacer, ignoreImportRules=False):
 
     for style in styleDeclarations(sheetOrStyle):
         for p in style.getProperties(all=True):
-            for v in p.propertyValue:
-                if v.type == v.URI:
-                    v.uri = replacer(v.uri)
+            for v in _urivalues(p.propertyValue):
+                v.uri = replacer(v.uri)
 
 
 def resolveImports(sheet, target=None):
